@@ -24,6 +24,15 @@ def check(tier, seed):
                 lines.append(f"drop_check {s} sk {src}"); meta.append(('sk ' + src.split(':')[0], want_sk))
             for src in (f"gen:{xi.hex()}", f"rt:{xi.hex()}", f"bytes:{pk.hex()}", f"der:gen:{xi.hex()}"):
                 lines.append(f"drop_check {s} pk {src}"); meta.append(('pk ' + src.split(':')[0], want_pk))
+        # keys one of whose stored NTT-domain polynomials has a coefficient exactly 0 (about one key in 2000; found by search, see
+        # seeded/C16b-*): a drop glue that inspects the content before wiping must not skip them
+        for n in {'44': (2176, 24521), '65': (3725, 2751), '87': (434, 466)}[s]:
+            xi = n.to_bytes(4, 'little') + bytes(28)
+            skz, pkz = fam.keypair(s, xi)[1], fam.keypair(s, xi)[0]
+            for src in (f"gen:{xi.hex()}", f"bytes:{skz.hex()}"):
+                lines.append(f"drop_check {s} sk {src}"); meta.append(('sk zero-coefficient ' + src.split(':')[0], want_sk))
+            for src in (f"gen:{xi.hex()}", f"bytes:{pkz.hex()}"):
+                lines.append(f"drop_check {s} pk {src}"); meta.append(('pk zero-coefficient ' + src.split(':')[0], want_pk))
         # deserialised keys whose leading fields are all-zero / all-FF (a drop glue that looks at the content must not skip them)
         plen = R.pk_len(p)
         for tag, pkb in (('rho=0', bytes(32) + bytes(rng.randrange(256) for _ in range(plen - 32))), ('all-00', bytes(plen)), ('all-FF', bytes([0xff]) * plen)):
